@@ -16,13 +16,17 @@ import (
 	"crypto/sha256"
 	"encoding/binary"
 	"fmt"
+	"math"
 	"math/rand"
+	"os"
 	"reflect"
 	"runtime/debug"
 	"sort"
 	"strings"
 	"sync"
+	"sync/atomic"
 	"testing"
+	"time"
 
 	"github.com/NethermindEth/juno/consensus/propeller"
 	"github.com/NethermindEth/juno/consensus/propeller/merkle"
@@ -90,6 +94,7 @@ type table struct {
 	Proto     map[string]string            `json:"proto"`
 	Lens      map[string]int               `json:"lens"`
 	PeerOf    [][]int                      `json:"peerof"`
+	NewSched  map[string]string            `json:"newsched"`
 	Sched     map[string]schedRec          `json:"sched"`
 }
 
@@ -115,7 +120,9 @@ type kase struct {
 	What   string       `json:"what,omitempty"` // sub-check of a create / sched / pad case
 	Fix    string       `json:"fix"`
 	Cur    string       `json:"cur"`
-	Plan   *sessionPlan `json:"plan,omitempty"` // session cases
+	Plan   *sessionPlan `json:"plan,omitempty"`  // session cases
+	Plan2  *sessionPlan `json:"plan2,omitempty"` // second message (other publisher) on the SAME scheduler
+	Leaf   string       `json:"leaf,omitempty"`  // leaf encoding of hand-built units: proto | raw
 	ret    *retainer    // per-goroutine store of every value the package handed back (not serialised)
 	// for index corruptions both alternatives (the bytes decide which applies)
 	FixBenign string `json:"fix_benign,omitempty"`
@@ -127,7 +134,11 @@ type input struct {
 	Cur   []table `json:"cur"`
 	Cases []kase  `json:"cases"` // replay mode: exactly these
 	Seed  int64   `json:"seed"`
-	Full  bool    `json:"full"` // thorough: every corruption in every subset also for long messages
+	// Leaf: which Merkle leaf encoding the validator of this tree verifies against.  It is NOT found
+	// out by trying: the driver derives it from known_findings.json (H17 listed as known: the
+	// validator hashes the protobuf encoding of ShardData; fixed / unlisted: the raw shard).
+	Leaf string `json:"leaf"`
+	Full bool   `json:"full"` // thorough: every corruption in every subset also for long messages
 	// Concurrent round: Goroutines x Rounds honest round trips on distinct messages at the same time.
 	Concurrent *concSpec `json:"concurrent,omitempty"`
 }
@@ -286,6 +297,9 @@ func (w *world) committeeID() propeller.CommitteeID {
 }
 
 func (w *world) message(d, p, l int) []byte {
+	if l == 0 && d%2 == 1 {
+		return nil // nil and empty are both "no bytes"
+	}
 	m := make([]byte, l)
 	w.rng("msg", d, p, l).Read(m)
 	return m
@@ -296,6 +310,14 @@ func nonceOf(nz bool) propeller.Nonce {
 		return 0
 	}
 	return 1_700_000_000_123_456_789
+}
+
+// nonceFor varies the non-zero nonce with the length: a large one and the largest one
+func nonceFor(nz bool, l int) propeller.Nonce {
+	if !nz && l%2 == 1 {
+		return propeller.Nonce(math.MaxInt64)
+	}
+	return nonceOf(nz)
 }
 
 // committee of np peers in the scheduler's order (sorted by ID); position -> key
@@ -444,7 +466,7 @@ func caseTag(k *kase) string {
 		return k.F
 	case "create", "sched", "pad":
 		return k.What
-	case "session":
+	case "session", "large", "newsched":
 		return k.What
 	}
 	return "subset"
@@ -453,14 +475,19 @@ func caseTag(k *kase) string {
 func (e *engine) create(d, p, l int, nz bool) (units []propeller.Unit, msg []byte, class, detail string) {
 	msg = e.w.message(d, p, l)
 	cid := e.w.committeeID()
+	mine := bytes.Clone(msg) // the caller's buffer: reused by the caller right after the call
 	class, detail = guard(func() string {
 		var err error
-		units, err = propeller.CreatePropellerUnits(e.w.key("publisher"), &cid, nonceOf(nz), msg, d, p)
+		units, err = propeller.CreatePropellerUnits(e.w.key("publisher"), &cid, nonceFor(nz, l), mine, d, p)
 		if err != nil {
 			return "err:" + err.Error()
 		}
 		return "units"
 	})
+	for i := range mine {
+		mine[i] ^= 0xa5
+	}
+	cid[0] ^= 0xff
 	return
 }
 
@@ -520,6 +547,8 @@ func corrupt(u *propeller.Unit, f string, j int, rng *rand.Rand, other peer.ID) 
 		u.ShardData = append(u.ShardData, bytes.Clone(u.ShardData[0]))
 	case "index", "indexoob":
 		u.ShardIndex = propeller.ShardIndex(j)
+	case "indexmax":
+		u.ShardIndex = propeller.ShardIndex(math.MaxUint32)
 	case "proof":
 		k := rng.Intn(len(u.MerkleProof.Siblings))
 		u.MerkleProof.Siblings[k][rng.Intn(32)] ^= byte(1 << rng.Intn(8))
@@ -575,6 +604,18 @@ func (e *engine) runCase(k *kase) {
 		}
 		obs, detail := construct(k.ret, us, units, msg, k.D, k.P)
 		e.judge(k, obs, detail, fix, cur)
+		if k.Kind == "honest" && obs != "panic" {
+			for i := range us {
+				if us[i] != nil && !reflect.DeepEqual(*us[i], units[i]) {
+					kk := *k
+					kk.What = fmt.Sprintf("unit-%d", i)
+					e.out.Diverge(vh.Divergence{Key: "propeller-retained:ConstructMessageFromUnits:input-units-modified",
+						What:  fmt.Sprintf("ConstructMessageFromUnits changed the unit in slot %d that the caller passed in (d=%d p=%d subset=%b)", i, k.D, k.P, k.Mask),
+						Input: vh.J{"cases": []kase{kk}, "seed": e.w.seed}, Expected: "unchanged", Observed: "changed"})
+					break
+				}
+			}
+		}
 	case "byz":
 		units, class, detail := e.byzantine(k.D, k.P, k.Pad)
 		if class != "units" {
@@ -591,6 +632,10 @@ func (e *engine) runCase(k *kase) {
 		e.createCase(k)
 	case "session":
 		e.sessionCase(k)
+	case "large":
+		e.largeCase(k)
+	case "newsched":
+		e.newSchedCase(k)
 	case "sched":
 		e.schedCase(k)
 	default:
@@ -790,9 +835,10 @@ func (e *engine) handBuilt(priv crypto.PrivKey, msg []byte, d, p int, leaf strin
 // sessionCase drives one plan on ONE real UnitValidator: genuine and junk units in the plan's
 // order; every verdict is compared with the specification's, which depends on what the validator
 // accepted before - and on nothing it rejected.  After a "poison-all" plan the accepted shards
-// must reach the build threshold and rebuild the exact message.
+// must reach the build threshold and rebuild the exact message.  With Plan2, a second message of
+// ANOTHER publisher is then validated by a new validator on the SAME scheduler object (the
+// scheduler lives as long as the committee; nothing of the first message may stick to it).
 func (e *engine) sessionCase(k *kase) {
-	pl := k.Plan
 	n := k.D + k.P
 	np := n + 1
 	ks := e.w.committee(np)
@@ -800,34 +846,43 @@ func (e *engine) sessionCase(k *kase) {
 	for i, key := range ks {
 		peers[i] = propeller.PeerCommittee{ID: pid(key), Stake: 1}
 	}
-	local := peers[pl.Loc].ID
-	msg := e.w.message(k.D, k.P, 57)
-	for _, leaf := range []string{"proto", "raw"} {
+	leaf := k.Leaf
+	if leaf == "" {
+		leaf = "proto"
+	}
+	local := peers[k.Plan.Loc].ID
+	var sch *propeller.Scheduler
+	if c, d := guard(func() string {
+		var err error
+		if sch, err = propeller.NewScheduler(local, append([]propeller.PeerCommittee(nil), peers...)); err != nil {
+			return "err:" + err.Error()
+		}
+		return "scheduler"
+	}); c != "scheduler" {
+		kk := *k
+		kk.What = "scheduler-for-the-committee"
+		e.judge(&kk, c, d, "scheduler", "")
+		return
+	}
+	for epoch, pl := range []*sessionPlan{k.Plan, k.Plan2} {
+		if pl == nil {
+			continue
+		}
+		tag := ""
+		if epoch == 1 {
+			tag = "second-message-on-the-same-scheduler/"
+		}
+		msg := e.w.message(k.D, k.P, 57+epoch)
 		var units []propeller.Unit
 		accepted := make([][]byte, n)
 		step, want := -1, ""
 		obs, detail := guard(func() string {
-			sch, err := propeller.NewScheduler(local, append([]propeller.PeerCommittee(nil), peers...))
-			if err != nil {
-				return "other:scheduler:" + err.Error()
-			}
+			var err error
 			if units, err = e.handBuilt(ks[pl.Pub], msg, k.D, k.P, leaf); err != nil {
 				return "other:build:" + err.Error()
 			}
 			if pl.T == 0 {
 				k.ret.keepUnits("reedsolomon.EncodeData+merkle.New+SignMessage", units)
-			}
-			// which leaf encoding does this validator verify against?
-			probe := propeller.NewValidator(peers[pl.Pub].ID, sch)
-			s0 := pl.Steps[0]
-			for _, st := range pl.Steps {
-				if st.F == "none" {
-					s0 = st
-					break
-				}
-			}
-			if err := probe.Validate(cloneUnit(&units[s0.U]), peers[s0.Sender].ID); err != nil {
-				return "setup:" + validateClass(err)
 			}
 			v := propeller.NewValidator(peers[pl.Pub].ID, sch)
 			for si, st := range pl.Steps {
@@ -849,31 +904,28 @@ func (e *engine) sessionCase(k *kase) {
 			}
 			return "conforms"
 		})
-		if strings.HasPrefix(obs, "setup:") {
-			if leaf == "proto" {
-				continue // the validator wants raw leaves: try those
-			}
-			e.out.Count("session_setup_impossible", 1)
-			return
-		}
 		e.out.Count("session_leaf_"+leaf, 1)
 		kk := *k
 		if obs != "conforms" {
 			st := pl.Steps[max(step, 0)]
-			kk.What = fmt.Sprintf("%s/junk=%s/step%d(%s)", pl.Name, pl.F, step, st.F)
-			if st.F == "none" && want == "ok" && obs == "dup" {
-				kk.What = "genuine-unit-rejected-as-duplicate-after-a-rejected-unit/junk=" + pl.F
+			kk.What = fmt.Sprintf("%s%s/junk=%s/step%d(%s)", tag, pl.Name, pl.F, step, st.F)
+			switch {
+			case st.F == "none" && want == "ok" && obs == "dup":
+				kk.What = tag + "genuine-unit-rejected-as-duplicate-after-a-rejected-unit/junk=" + pl.F
+			case st.F == "none" && want == "ok" && step >= 0 && obs != "panic":
+				// a genuine unit, built with the leaf encoding this tree's validator is recorded to use
+				kk.What = tag + "genuine-unit-rejected/" + obs
 			}
 			if step >= 0 {
-				detail += fmt.Sprintf(" plan %s aimed at index %d, step %d delivers unit %d (%s) as index %d", pl.Name, pl.T, step, st.U, st.F, st.I)
+				detail += fmt.Sprintf(" plan %s aimed at index %d, step %d delivers unit %d (%s) as index %d; leaves: %s", pl.Name, pl.T, step, st.U, st.F, st.I, leaf)
 			}
 			e.judge(&kk, obs, detail, want, "")
 			return
 		}
-		kk.What = pl.Name + "/junk=" + pl.F
+		kk.What = tag + pl.Name + "/junk=" + pl.F
 		e.judge(&kk, "conforms", "", "conforms", "")
 		if pl.Name == "poison-all" {
-			kk.What = "poison-all/threshold-and-rebuild/junk=" + pl.F
+			kk.What = tag + "poison-all/threshold-and-rebuild/junk=" + pl.F
 			got, detail := guard(func() string {
 				have := 0
 				for _, s := range accepted {
@@ -903,8 +955,72 @@ func (e *engine) sessionCase(k *kase) {
 			})
 			e.judge(&kk, got, detail, "msg", "")
 		}
+	}
+}
+
+// largeCase: committees far beyond the exhaustively enumerated ones (31 and 100 peers: 10+20 and
+// 33+66 shards): create, every proof, and rebuild from sampled subsets of exactly data, data+1, all,
+// and data-1 units; the expectation is the specification's Reconstructs.
+func (e *engine) largeCase(k *kase) {
+	units, msg, class, detail := e.create(k.D, k.P, k.Len, true)
+	if class != "units" {
+		e.judge(k, "create-"+class, detail, k.Fix, k.Cur)
 		return
 	}
+	n := k.D + k.P
+	rng := e.w.rng("large", k.D, k.P, k.Mask)
+	size := []int{k.D, k.D + 1, n, k.D - 1, k.D, n - 1}[k.Mask%6]
+	us := make([]*propeller.Unit, n)
+	for _, i := range rng.Perm(n)[:size] {
+		us[i] = cloneUnit(&units[i])
+	}
+	obs, detail := guard(func() string {
+		root := merkle.Hash(units[0].MessageRoot)
+		for i := range units {
+			if !units[i].MerkleProof.Verify(&root, units[i].ShardData[0], uint32(i)) {
+				return fmt.Sprintf("other:proof-%d-does-not-verify", i)
+			}
+		}
+		return ""
+	})
+	if obs == "" {
+		obs, detail = construct(k.ret, us, nil, msg, k.D, k.P)
+	}
+	e.judge(k, obs, detail, k.Fix, k.Cur)
+}
+
+// newSchedCase: the committees NewScheduler must refuse.
+func (e *engine) newSchedCase(k *kase) {
+	ks := e.w.committee(4)
+	peers := make([]propeller.PeerCommittee, len(ks))
+	for i, key := range ks {
+		peers[i] = propeller.PeerCommittee{ID: pid(key), Stake: 1}
+	}
+	local := peers[1].ID
+	switch k.F {
+	case "ok":
+	case "single":
+		peers = peers[1:2]
+	case "empty":
+		peers = nil
+	case "duplicate":
+		peers = append(peers, peers[2])
+	case "localmissing":
+		local = pid(e.w.key("outsider"))
+	default:
+		panic("propeller engine: unknown scheduler kind " + k.F)
+	}
+	obs, detail := guard(func() string {
+		sch, err := propeller.NewScheduler(local, peers)
+		if err != nil {
+			return "err"
+		}
+		if sch == nil {
+			return "other:nil-scheduler-without-error"
+		}
+		return "scheduler"
+	})
+	e.judge(k, obs, detail, k.Fix, k.Cur)
 }
 
 // createCase: the publisher side: shape of the units, every proof verifies against the signed
@@ -955,13 +1071,13 @@ func (e *engine) createCase(k *kase) {
 	sub("proof-verifies-for-another-leaf", "no", "no", b(wrongLeaf), "")
 	pub := e.w.key("publisher").GetPublic()
 	cid := e.w.committeeID()
-	sigTrue := propeller.VerifyMessageSignature(pub, &units[0].MessageRoot, &cid, nonceOf(k.NZ), units[0].Signature) == nil
+	sigTrue := propeller.VerifyMessageSignature(pub, &units[0].MessageRoot, &cid, nonceFor(k.NZ, k.Len), units[0].Signature) == nil
 	sub("signature-covers-root-committee-nonce", "yes", "yes", b(sigTrue), "")
 	sigUnit := true
 	for i := range units {
 		sigUnit = sigUnit && propeller.VerifyMessageSignature(pub, &units[i].MessageRoot, &units[i].CommitteeID, units[i].Nonce, units[i].Signature) == nil
 	}
-	sub("signature-verifies-with-unit-nonce", k.Fix, k.Cur, b(sigUnit), fmt.Sprintf("unit nonce %d, signed nonce %d", units[0].Nonce, nonceOf(k.NZ)))
+	sub("signature-verifies-with-unit-nonce", k.Fix, k.Cur, b(sigUnit), fmt.Sprintf("unit nonce %d, signed nonce %d", units[0].Nonce, nonceFor(k.NZ, k.Len)))
 	pad, detail := guard(func() string {
 		p := propeller.PadMessage(msg, k.D)
 		back, err := propeller.UnpadMessage(p)
@@ -1064,6 +1180,15 @@ func (e *engine) enumerate(in *input, emit func(kase)) {
 		rng := e.w.rng("enumerate", d, p)
 		for _, l := range lens {
 			long := l > 200
+			if l > 100000 { // 1 MiB and the 3->4 byte varint boundary: create, and a few subsets
+				emit(kase{Kind: "create", D: d, P: p, Len: l, NZ: true, U: fix.Lens[fmt.Sprint(l)], Fix: "yes", Cur: "yes"})
+				if in.Full || (d+p)%3 == 1 {
+					for _, m := range []int{full - 1, rng.Intn(full), rng.Intn(full)} {
+						emit(kase{Kind: "honest", D: d, P: p, Len: l, NZ: true, Mask: m, Fix: fix.Honest[m], Cur: cur.Honest[m]})
+					}
+				}
+				continue
+			}
 			for _, nz := range []bool{true, false} {
 				if !nz && l%5 != 0 {
 					continue
@@ -1144,7 +1269,23 @@ func (e *engine) enumerate(in *input, emit func(kase)) {
 			curVal[valKey(&cur.Val[i])] = cur.Val[i].V
 		}
 		for i := range fix.Sessions {
-			emit(kase{Kind: "session", D: d, P: p, Plan: &fix.Sessions[i], Fix: "conforms"})
+			pl := &fix.Sessions[i]
+			k := kase{Kind: "session", D: d, P: p, Plan: pl, Leaf: in.Leaf, Fix: "conforms"}
+			if pl.Name == "poison-all" { // then a message of another publisher on the same scheduler
+				for j := range fix.Sessions {
+					o := &fix.Sessions[j]
+					if o.Name == pl.Name && o.F == pl.F && o.Loc == pl.Loc && o.Pub != pl.Pub {
+						k.Plan2 = o
+						break
+					}
+				}
+			}
+			emit(k)
+		}
+		for kind, v := range fix.NewSched {
+			if ti == 0 {
+				emit(kase{Kind: "newsched", F: kind, What: kind, Fix: v, Cur: cur.NewSched[kind]})
+			}
 		}
 		for i := range fix.Val {
 			r := &fix.Val[i]
@@ -1157,8 +1298,21 @@ func (e *engine) enumerate(in *input, emit func(kase)) {
 				fmt.Sscan(nps, &np)
 				c := cur.Sched[nps]
 				want := func(s schedRec) string { return fmt.Sprintf("d%d-p%d-build%d-recv%d", s.D, s.P, s.Build, s.Recv) }
+				if np > 10 { // far beyond the enumerated configurations: sampled round trips
+					for m := 0; m < 12; m++ {
+						want := "msg"
+						if m%6 == 3 {
+							want = "err"
+						}
+						emit(kase{Kind: "large", D: s.D, P: s.P, NP: np, Len: 5000 + m, Mask: m,
+							What: fmt.Sprintf("committee-of-%d", np), Fix: want, Cur: want})
+					}
+				}
 				for loc := 0; loc < np; loc++ {
 					for pub := 0; pub < np; pub++ {
+						if np > 10 && ((loc != 0 && loc != np-1 && loc != np/2) || (pub != 0 && pub != np-1 && pub != np/2)) {
+							continue
+						}
 						k := kase{Kind: "sched", NP: np, Loc: loc, Pub: pub, What: "shards-and-thresholds", Fix: want(s), Cur: want(c)}
 						if pub != loc {
 							t := tableFor(in.Fix, s.D, s.P)
@@ -1343,7 +1497,40 @@ func TestPropellerReplay(t *testing.T) {
 		e.w.committee(np)
 	}
 	total := 0
+	// a call into the real code that never returns must not turn a verdict into a timeout: after
+	// 3 minutes without any case finishing, what is known is written out and the case in flight
+	// is reported
+	var progress atomic.Int64
+	var inflight sync.Map
+	go func() {
+		last, since := int64(-1), time.Now()
+		for {
+			time.Sleep(5 * time.Second)
+			if p := progress.Load(); p != last {
+				last, since = p, time.Now()
+				continue
+			}
+			if time.Since(since) < 3*time.Minute {
+				continue
+			}
+			inflight.Range(func(_, v any) bool {
+				k := v.(kase)
+				k.ret = nil
+				out.Diverge(vh.Divergence{Key: "propeller-hang:" + k.Kind + ":" + caseTag(&k),
+					What:  fmt.Sprintf("no case finished for 3 minutes; in flight: %s %s d=%d p=%d", k.Kind, caseTag(&k), k.D, k.P),
+					Input: vh.J{"cases": []kase{k}, "seed": e.w.seed}, Expected: "returns", Observed: "hangs"})
+				return true
+			})
+			_ = out.Write()
+			os.Exit(1)
+		}
+	}()
 	safely := func(k *kase) {
+		inflight.Store(k, *k)
+		defer func() {
+			inflight.Delete(k)
+			progress.Add(1)
+		}()
 		defer func() {
 			if p := recover(); p != nil {
 				msg := fmt.Sprint(p)
